@@ -1,8 +1,7 @@
 """C11 - calendar conversions are a Gregorian bijection over the whole year range."""
-from pipes import calendar
-
-
 import os
+
+from pipes import calendar
 
 
 def run(tier, rep):
